@@ -95,6 +95,10 @@ pub fn ctor_inputs() -> Vec<(i64, i32)> {
     let mut nanos = vec![0i32, 1, -1, 999_999_999, -999_999_999, 1_000_000_000, -1_000_000_000, 1_999_999_999, -1_999_999_999, i32::MAX, i32::MIN];
     secs.extend([3, -3, 59, -60, 3_600, -86_400, 1 << 31, -(1 << 31), (1 << 53) + 1, -(1 << 53), i64::MAX / 2, i64::MIN / 2, i64::MAX - 2, i64::MIN + 2, 631_107_417_600, -631_107_417_601]);
     nanos.extend([2, -2, 500_000_000, -500_000_000, 999_999_998, 1_000_000_001, -1_000_000_001]);
+    // the nanosecond count crossing 2^63 (i64::MAX / 1e9 seconds, remainder
+    // 854_775_807): a boundary for anything computed in 64-bit nanoseconds
+    secs.extend([9_223_372_035, 9_223_372_036, 9_223_372_037, -9_223_372_035, -9_223_372_036, -9_223_372_037]);
+    nanos.extend([854_775_807, 854_775_808, -854_775_808, -854_775_809]);
     if THOROUGH.load(std::sync::atomic::Ordering::Relaxed) {
         secs.extend([
             7,
